@@ -131,7 +131,10 @@ def run(ctx):
     ctx.check(alphabet_of(field(D.from_json(w.value(p_std)), "0")) == STD, "C02.encoding", "C02.encoding:alphabet", w.where_value(p_std),
               bad_msg="Standard alphabet is not RFC 4648 standard")
     f2 = w.fn("<ruma_signatures::keys::Ed25519KeyPair as ruma_signatures::keys::KeyPair>::sign")
-    ps = dex.paths(f2, [D.sym("self"), D.sym("message")])
+    # the key pair's own getters (version(), ..) are inlined: `self.version()` and `self.version.as_str()` are the same thing
+    dexk = D.Dex(w.lookup, adt_discr=w.adt_discr, effects=lambda n: True,
+                 inline=lambda n: U.sig_inline(n) or (n.startswith("ruma_signatures::keys::Ed25519KeyPair::") and n.rsplit("::", 1)[-1] in ("version", "public_key")))
+    ps = dexk.paths(f2, [D.sym("self"), D.sym("message")])
     good = len(ps) == 1 and ps[0].ret is not None and ps[0].ret[0] == "adt"
     if good:
         kid, sig = D.show(field(ps[0].ret, "key_id")), D.show(field(ps[0].ret, "signature"))
